@@ -1,7 +1,7 @@
 //! Runs operation sequences on the REAL `bourse_book::OrderBook<L>` and prints the stream
 //! (`H` / `O` / `I` lines) consumed by the Lean driver.
 
-use crate::obs::observe;
+use crate::obs::{observe, visible};
 use crate::proto::{side_of, BookHeader, Op};
 use bourse_book::types::Status;
 use bourse_book::OrderBook;
@@ -209,7 +209,7 @@ impl<const L: usize> Live<L> {
                 }));
                 match r {
                     Ok((tok, ob)) => {
-                        if tok != out.token() || ob != main {
+                        if tok != out.token() || visible(&ob) != visible(&main) {
                             diverged = true;
                         }
                     }
@@ -223,7 +223,7 @@ impl<const L: usize> Live<L> {
             // the reloaded book must show exactly what the original shows
             let trading = self.trading;
             if let Some(orig) = self.shadows.last() {
-                if observe(orig, trading) != main {
+                if visible(&observe(orig, trading)) != visible(&main) {
                     sh = "DIVERGE".to_string();
                 }
             }
